@@ -173,6 +173,10 @@ def run(chk):
             from pyroll.core import Profile, BaseRollPass
             d0 = ip.cross_section.bounds[2] - ip.cross_section.bounds[0]
             ip2 = Profile.round(diameter=0.94 * d0, **{k: v for k, v in ip.__dict__.items() if not k.startswith('_') and k not in ('cross_section', 'classifiers', 't')})
+            # ... that also differs in what no unit of these layouts changes: material, density and an additional attribute must arrive at the end
+            ip2.material = ["other", "steel"]
+            ip2.density = 6.9e3
+            ip2.heat_batch = "B-2"
             try:
                 returned2 = seq.solve(ip2)
             except Exception as e:       # noqa
@@ -186,6 +190,12 @@ def run(chk):
                 done.append(name)
                 continue
             check_sequence(chk, name + ' (solved again with a smaller incoming profile)', seq, returned2, ip2, prec)
+            for attr in ('material', 'density', 'heat_batch'):
+                for who, prof in (("the profile returned by the second solve", returned2), ("the last unit's out profile", seq.out_profile)):
+                    if getattr(prof, attr, None) != getattr(ip2, attr) and not any(f.key == 'stale-handover' for f in chk.failures):
+                        chk.fail('stale-handover', f"[{name}] solved with one profile, then with another one ({attr} = {getattr(ip2, attr)!r}): {who} carries "
+                                 f"{attr} = {getattr(prof, attr, None)!r}", {'layout': name, 'attribute': attr})
+                        break
             chk.cov['evaluations'] += 1
 
             def first_pass(u):
